@@ -169,7 +169,7 @@ pub fn gen_spec(seed: u64, run: u64, fl: MtFlavour) -> MtSpec {
     let n_alloc = rng.range(2, 14);
     for _ in 0..n_alloc {
         let kind = *rng.pick(&[AllocKind::Bytes, AllocKind::Bytes, AllocKind::Typed, AllocKind::Aligned]);
-        let ty = rng.below(NTYPES as u64 - 1) as u8; // no DropCounter in set-up
+        let ty = match rng.below(NTYPES as u64 - 1) as u8 { crate::types::TY_DROP => NTYPES - 1, t => t }; // no DropCounter in set-up
         let size = rng.range(4, 72) as u32;
         setup.push(Op::Alloc { kind, ty, size, owned: false, arena: 0 });
     }
